@@ -40,4 +40,12 @@ def condition (s0 : Q) (w s z : List Q) : Q :=
 /-- clamp used by the repaired `law_gaussian_between_bounds` -/
 def clamp (lo hi x : Q) : Q := if x < lo then lo else if x > hi then hi else x
 
+/-- `Db::getSimRank(isimu, ivar, icase, nbsimu, nvar)`: address of the column holding simulation
+`isimu` of variable `ivar` of Gaussian system `icase` -/
+def simRank (isimu ivar icase nbsimu nvar : Nat) : Nat := isimu + nbsimu * (ivar + nvar * icase)
+
+/-- address used by `AGibbs::storeResult` before the repair of F91: `icase + nsize * isimu` with
+`icase = ivar + nvar * ipgs`, `nsize = npgs * nvar` -/
+def gibbsRankOld (isimu ivar ipgs npgs nvar : Nat) : Nat := (ivar + nvar * ipgs) + (npgs * nvar) * isimu
+
 end GstVerif.Rng
